@@ -156,6 +156,19 @@ theorem Adv.trans {now : Nat} {a b c : Actor} (h1 : Adv now a b) (h2 : Adv now b
   have f2 := h2.ok (by omega)
   exact f1.trans f2
 
+/-- two consecutive stretches within one wrap-free stretch are wrap-free themselves -/
+theorem Adv.split {now : Nat} {a b c : Actor} (h1 : Adv now a b) (h2 : Adv now b c)
+    (hb : a.sock.nextTid + (c.out.length - a.out.length) < two32) :
+    Facts now a b ∧ b.sock.nextTid + (c.out.length - b.out.length) < two32 ∧ Facts now b c := by
+  obtain ⟨l1, e1⟩ := h1.out
+  obtain ⟨l2, e2⟩ := h2.out
+  have hlen1 : b.out.length = a.out.length + l1.length := by rw [e1, List.length_append]
+  have hlen2 : c.out.length = b.out.length + l2.length := by rw [e2, List.length_append]
+  have f1 := h1.ok (by omega)
+  have hbd := f1.bound
+  have hb2 : b.sock.nextTid + (c.out.length - b.out.length) < two32 := by omega
+  exact ⟨f1, hb2, h2.ok hb2⟩
+
 /-- a stretch that sends nothing and draws no id: the table may lose requests, lookups and puts may
     come and go, but every id listed afterwards was listed before -/
 theorem Adv.quiet {now : Nat} {a a' : Actor} (ho : a'.out = a.out) (hn : a'.sock.nextTid = a.sock.nextTid)
@@ -880,15 +893,14 @@ theorem visitClosest_adv (a : Actor) (t : Id) (now : Nat) : Adv now a (a.visitCl
       simp only [vc] at hp'
       exact Or.inl ⟨p', hp', ht⟩
 
-theorem visitClosestAll_adv (a : Actor) (now : Nat) : Adv now a (a.visitClosestAll now) := by
-  unfold visitClosestAll
-  have : ∀ (l : List (Id × IterQuery)) (b : Actor),
-      Adv now b (l.foldl (fun (a : Actor) (p : Id × IterQuery) => a.visitClosest p.1 now) b) := by
-    intro l
-    induction l with
-    | nil => intro b; exact Adv.refl now b
-    | cons p ps ih => intro b; simp only [List.foldl_cons]; exact (visitClosest_adv b p.1 now).trans (ih _)
-  exact this a.core.iter a
+theorem visitClosest_fold_adv (now : Nat) (l : List (Id × IterQuery)) (b : Actor) :
+    Adv now b (l.foldl (fun (a : Actor) (p : Id × IterQuery) => a.visitClosest p.1 now) b) := by
+  induction l generalizing b with
+  | nil => exact Adv.refl now b
+  | cons p ps ih => simp only [List.foldl_cons]; exact (visitClosest_adv b p.1 now).trans (ih _)
+
+theorem visitClosestAll_adv (a : Actor) (now : Nat) : Adv now a (a.visitClosestAll now) :=
+  visitClosest_fold_adv now a.core.iter a
 
 theorem decrementCached_time (c : Core) (e : Option CachedQuery) :
     (decrementCached c e).iter = c.iter ∧ (decrementCached c e).puts = c.puts := by
@@ -1083,5 +1095,73 @@ theorem step_sockOk (a : Actor) (now0 : Nat) (h : SockOk a now0) (env : Env) (hn
     (hb : a.sock.nextTid + ((a.step env dgram msg).out.length - a.out.length) < two32) :
     SockOk (a.step env dgram msg) env.now :=
   ((step_adv a env dgram msg).ok hb).sockOk (h.mono hnow)
+
+/-! ### the request timeout only changes when a datagram is received -/
+
+theorem visitAll_tmo (a : Actor) (q : IterQuery) (tos : List Addr) (now : Nat) :
+    (a.visitAll q tos now).1.sock.timeout = a.sock.timeout := by
+  unfold visitAll
+  induction tos generalizing a q with
+  | nil => rfl
+  | cons t ts ih => simp only [List.foldl_cons]; rw [ih]; rfl
+
+theorem startLookup_tmo (a : Actor) (k : GetKind) (t : Id) (extra : List Addr) (now : Nat) :
+    (a.startLookup k t extra now).sock.timeout = a.sock.timeout := by
+  unfold startLookup
+  split
+  · simp only; rw [visitAll_tmo]
+  · rfl
+
+theorem get_tmo (a : Actor) (k : GetKind) (t : Id) (extra : List Addr) (now : Nat) :
+    (a.get k t extra now).1.sock.timeout = a.sock.timeout := by
+  unfold Actor.get
+  split
+  · rfl
+  · exact startLookup_tmo a k t extra now
+
+theorem populate_tmo (a : Actor) (now : Nat) : (a.populate now).sock.timeout = a.sock.timeout := by
+  unfold populate
+  split
+  · rfl
+  · exact get_tmo a _ _ _ now
+
+theorem sendReply_tmo (a : Actor) (src : Addr) (tid : UInt32) (r : Option Reply) :
+    (a.sendReply src tid r).sock = a.sock := by
+  unfold sendReply
+  split <;> rfl
+
+theorem handleIncoming_tmo (a : Actor) (env : Env) (handed : Option (Message × Addr)) :
+    (a.handleIncoming env handed).1.sock.timeout = a.sock.timeout := by
+  unfold handleIncoming
+  split
+  · rfl
+  · split
+    · unfold handleIncomingRequest
+      split
+      · rw [populate_tmo, sendReply_tmo]
+      · rw [sendReply_tmo]
+    · rfl
+
+theorem forwardValue_sock (a : Actor) (v : Option (Id × Value)) : (a.forwardValue v).sock = a.sock := by
+  unfold forwardValue
+  split
+  · split <;> rfl
+  · rfl
+
+theorem visitClosest_tmo (a : Actor) (t : Id) (now : Nat) : (a.visitClosest t now).sock.timeout = a.sock.timeout := by
+  unfold visitClosest
+  split
+  · simp only; rw [visitAll_tmo]
+  · rfl
+
+theorem visitClosestAll_tmo (a : Actor) (now : Nat) : (a.visitClosestAll now).sock.timeout = a.sock.timeout := by
+  unfold visitClosestAll
+  have : ∀ (l : List (Id × IterQuery)) (b : Actor),
+      (l.foldl (fun (a : Actor) (p : Id × IterQuery) => a.visitClosest p.1 now) b).sock.timeout = b.sock.timeout := by
+    intro l
+    induction l with
+    | nil => intro b; rfl
+    | cons p ps ih => intro b; simp only [List.foldl_cons]; rw [ih, visitClosest_tmo]
+  exact this a.core.iter a
 
 end Mainline
